@@ -205,7 +205,9 @@ impl<K: CacheKey + 'static> MemoryCache<K> {
             return;
         }
 
-        let target_entries = (self.config.max_entries * 90) / 100; // Evict to 90% capacity
+        // Evict to 90% capacity. Computed in 128 bits: max_entries may be as large as
+        // usize::MAX ("limit by bytes only"), where max_entries * 90 does not fit a usize.
+        let target_entries = (self.config.max_entries as u128 * 90 / 100) as usize;
         let current_entries = self.entry_count.load(Ordering::Relaxed);
 
         if current_entries <= target_entries {
